@@ -113,8 +113,19 @@ class World:
             base = dict(self.initial)
             for m in dperm:
                 base = self._apply(base, m)
+            INF2 = float('inf')
+
+            def before(x, y):
+                """call x had returned before call y started"""
+                return (x[1] or INF2) < y[0]
             for r in range(len(over) + 1):
                 for seq in itertools.permutations(over, r):
+                    # a linearization respects the real-time order of the calls: no call is placed before one that had
+                    # returned before it started, and none is left out while a later-started one is in
+                    if any(before(seq[j], seq[i]) for i in range(len(seq)) for j in range(i + 1, len(seq))):
+                        continue
+                    if any(before(m, x) and m not in seq for x in seq for m in over):
+                        continue
                     st = base
                     for m in seq:
                         st = self._apply(st, m)
@@ -184,6 +195,15 @@ def scenarios():
             ['decision', 'mutation', 'mutation'], marks
     sc('decision|add-deny|delete-deny', [pol('a')], make_three)
 
+    def make_two_updates(w):
+        g = Guard(w.st, RegexChecker())
+        marks = {}
+        return [decision_body(w, g, marks, 'd0'),
+                lambda: (w.st.update(pol('a', 'deny')), w.st.update(pol('b')))], ['decision', 'mutation'], marks
+    # every policy set that ever exists denies (b denies; then a and b deny; then a denies): a decision that combines the old
+    # a with the new b would allow
+    sc('decision|update-a-to-deny,update-b-to-allow', [pol('a'), pol('b', 'deny')], make_two_updates)
+
     def make_two_dec(w):
         g = Guard(w.st, RegexChecker())
         marks = {}
@@ -210,6 +230,28 @@ def cached_scenarios():
        lambda st: (st.update(pol('a', 'deny')), st.add(pol('b'))))
     mk('cached:decision|add-deny,add-allow', [pol('a')],
        lambda st: (st.add(pol('c', 'deny')), st.add(pol('b'))))
+    return C
+
+
+def line_scenarios():
+    """explored with the delay-bounded schedules at source-line granularity (like the cached3 ones)"""
+    C = []
+
+    def make_rejected_assignment(w):
+        g = Guard(w.st, RegexChecker())
+        marks = {}
+        stored = w.st.get('a')
+
+        def assign():
+            # an assignment the policy refuses (rule elements next to string elements): the stored policy never changes
+            from vakt.rules import Eq
+            from vakt.exceptions import PolicyCreationError
+            try:
+                stored.subjects = [Eq('max')]
+            except PolicyCreationError:
+                pass
+        return [decision_body(w, g, marks, 'd0'), assign], ['decision', 'assignment'], marks
+    C.append(('line3:decision|rejected-assignment-to-a-stored-policy', [pol('a')], make_rejected_assignment))
     return C
 
 
@@ -387,14 +429,14 @@ def _warm():
 def _enum_job(args):
     """one scenario, all schedules up to the bound; returns plain data (runs in a forked worker)"""
     idx, bound, limit = args
-    name, initial, make = (scenarios() + cached_scenarios() + cached3_scenarios())[idx]
+    name, initial, make = (scenarios() + cached_scenarios() + cached3_scenarios() + line_scenarios())[idx]
     _warm()
     del UNSCHEDULABLE[:]
     cached = name.startswith('cached:')
     res = {'name': name, 'runs': 0, 'failures': [], 'nontriv': [], 'lines': [], 'samples': [], 'stuck': None,
            'unschedulable': [], 'counts': {}}
     try:
-        if name.startswith('cached3:'):
+        if name.startswith('cached3:') or name.startswith('line3:'):
             runs = delay_schedules(name, initial, make)
         else:
             # the cached guard's window lies between source lines (lru_cache stores after the wrapped call returns):
@@ -419,7 +461,7 @@ def _enum_job(args):
             res['failures'].append(f)
         if len(pre) >= 1:
             res['nontriv'].append('%s %r' % (name, pre))
-        if not cached and not name.startswith('cached3:'):
+        if not cached and not name.startswith('cached3:') and not name.startswith('line3:'):
             kinds = make(World(Scheduler(), initial))[1]
             res['lines'].append((model_line(name, w, kinds), desc, desc['results']))
         if len(res['samples']) < 1 and len(pre) == 2 and not problems:
@@ -467,7 +509,7 @@ def run(ctx):
     bound = 2 if ctx.tier == 'quick' else 3
     limit = 800 if ctx.tier == 'quick' else 3000
     lines, meta = [], []
-    nsc = len(scenarios() + cached_scenarios() + cached3_scenarios())
+    nsc = len(scenarios() + cached_scenarios() + cached3_scenarios() + line_scenarios())
     nrand = ctx.budget(240, 12000)
     chunks = max(1, min(ctx.procs, nrand // 20))
     rjobs = [(rng.getrandbits(48), nrand // chunks + (1 if i < nrand % chunks else 0)) for i in range(chunks)]
@@ -534,9 +576,9 @@ def run(ctx):
 def replay(ctx, rp):
     c = rp['case']
     _warm()
-    for name, initial, make in scenarios() + cached_scenarios() + cached3_scenarios():
+    for name, initial, make in scenarios() + cached_scenarios() + cached3_scenarios() + line_scenarios():
         if name == c.get('scenario') and 'preemptions' in c:
-            delay = name.startswith('cached3:')
+            delay = name.startswith('cached3:') or name.startswith('line3:')
             results, sched, w, problems = run_one(name, initial, make, {int(a): int(b) for a, b in c['preemptions']},
                                                   line_mode=delay or name.startswith('cached:'), cyclic=delay, coarse=delay)
             return {'results': [list(map(str, r)) for r in results], 'problems': problems, 'still_fails': bool(problems)}
